@@ -110,7 +110,14 @@ class Check(PropertyCheck):
                   "curl-semantics finding (the argv is exact). `$(printf ...)` also runs the shell's printf: 'executes only curl' "
                   "is read as 'no command other than curl and the exporter's own fixed printf'. raw_parses_back (non-chunked) and "
                   "raw_chunked_parses_back (Transfer-Encoding: chunked, every content) are proved for the trailer-free assemble "
-                  "paths against a minimal reader written in the model; the strict Python reference parser judges the real bytes.")
+                  "paths against a minimal reader written in the model; the strict Python reference parser judges the real bytes. "
+                  "LENIENT BRANCHES of the oracle: the URL may be pretty_url or url, and the independent 'what would be dialled' clause "
+                  "applies only to hosts a URL authority can carry (valid name / IPv4 / IPv6, one Host line, path starting with '/'); "
+                  "the body clause applies only when the content is valid UTF-8 text under a UTF-8/absent charset (other charsets: the "
+                  "export must merely not be refused and must equal the fresh-state export); httpie with a body is not run under "
+                  "/bin/sh (`<<<` is a syntax error there); the raw clause applies only to requests HTTP/1 can represent (token-ish "
+                  "method/target, no CR/LF/NUL or outer whitespace in values, Content-Length consistent or chunked final coding "
+                  "without Content-Length); recorded findings F-C48b/c/d are excused by exact-value classifiers with a self-test.")
     technique = "Lean 4 proof (induction over arguments/bytes) + execution of the real exports under real shells with stub programs"
     rule = ("requests with ~60% plain and ~40% hostile material (shell metacharacters, quotes, control characters, %, "
             "backslashes, non-UTF-8 bytes; never NUL) in method, host, path, header names and values; Transfer-Encoding in its equivalent spellings (Chunked, CHUNKED, 'gzip, Chunked', inner "
